@@ -42,6 +42,8 @@ type Interp struct {
 	fnNameCache        map[*ssa.Function]string
 	fnsSeen            map[string]bool
 	pathsSinceRestart  int
+	curFn              string
+	fnStack            []string
 	initProblems       []string
 }
 
@@ -699,6 +701,13 @@ func (in *Interp) callSSA(caller *frame, callpos token.Pos, fn *ssa.Function, ar
 	for i, fv := range fn.FreeVars {
 		fr.env[fv] = env[i]
 	}
+	prevFn := in.curFn
+	in.curFn = in.fnName(fn)
+	in.fnStack = append(in.fnStack, in.curFn)
+	defer func() {
+		in.fnStack = in.fnStack[:len(in.fnStack)-1]
+		in.curFn = prevFn
+	}()
 	for fr.block != nil {
 		in.runFrame(fr)
 	}
